@@ -184,7 +184,11 @@ func (ci *ChunkInfo) updateQueue(ctx context.Context, authInfo []byte, rootCid, 
 		return
 	}
 	for over := range chunkInfo {
-		o := boson.MustParseHexAddress(over)
+		// the keys come from the peer: skip anything that is not an address
+		o, err := boson.ParseHexAddress(over)
+		if err != nil {
+			continue
+		}
 		n := o.Bytes()
 		if o.Equal(ci.addr) {
 			continue
